@@ -106,3 +106,91 @@ class FUnlink(CExec):
 
 
 ANALYSIS = {"F-UNLINK": FUnlink}
+
+
+class FUnlinkLeaf(CExec):
+    """`Bucket_deleteNextBucket(self)`: unlink self's successor from the leaf chain.
+      returns 0, there was a successor s  =>  self->next is now s->next (s read after activating self, its `next` after
+                     activating s), and the change of self was registered (PER_CHANGED called on self and succeeded)
+      returns 0, no successor             =>  nothing was written
+      returns -1                          =>  self->next was not written, unless the failure is PER_CHANGED's own
+    (`F-UNLINK:Bucket_deleteNextBucket:<clause>`).  Activating an object may change any field OF THAT OBJECT; a leaf is
+    not its own successor (A6b)."""
+    family = "F-UNLINK"
+
+    @classmethod
+    def applies(cls, tu, fn):
+        return fn == "Bucket_deleteNextBucket"
+
+    def on_entry(self, st):
+        ps = [p for p in self.fn.get("inner", []) if p["kind"] == "ParmVarDecl"]
+        self.S = st.vars[ps[0]["id"]]
+        self.ids = {}
+        for x in walk(self.fn):
+            if x.get("kind") == "VarDecl" and x.get("name") in ("successor", "next"):
+                self.ids.setdefault(x["name"], x["id"])
+        if set(self.ids) != {"successor", "next"}:
+            raise Unsupported("Bucket_deleteNextBucket's locals successor / next not found")
+        self.writes = []          # (guard, object, value) of stores to a `next` field
+        self.changed = []
+
+    def on_field_write(self, st, field, ptr, val):
+        if field == "next":
+            self.writes.append((st.guard, ptr, val))
+
+    def on_call(self, name, args, n, st):
+        if name == "->setstate":
+            obj = args[0]
+            for f in list(st.heap) + [x for x in ("next", "state", "len") if x not in st.heap]:
+                base = st.heap.get(f)
+                if base is None:
+                    base = z3.Const("H0_" + f, z3.ArraySort(INT, INT))
+                st.heap[f] = z3.Store(base, obj, fresh("loaded_" + f.replace("*", "m").replace(".", "_")))
+            return fresh("setstate_rc")
+        if name == "->changed":
+            r = fresh("changed_rc")
+            self.assumptions.append(z3.Or(r == 0, r == -1))
+            self.changed.append((st.guard, args[0], r))
+            return r
+        if name in ("->accessed", "Py_INCREF", "_Py_INCREF", "Py_XINCREF", "Py_DECREF", "_Py_DECREF", "Py_XDECREF", "_Py_IsImmortal",
+                    "_Py_Dealloc", "Py_TYPE", "_Py_NewRef", "_Py_XNewRef"):
+            return fresh("ret_" + name.strip("->"))
+        raise Unsupported("Bucket_deleteNextBucket calls %s" % name)
+
+    def on_return(self, st, v):
+        if v is None:
+            return
+        S = self.S
+        succ = st.vars.get(self.ids["successor"])
+        wrote_self = z3.Or(*[z3.And(g, p == S) for g, p, x in self.writes]) if self.writes else z3.BoolVal(False)
+        wrote_other = z3.Or(*[z3.And(g, p != S) for g, p, x in self.writes]) if self.writes else z3.BoolVal(False)
+        reg = z3.Or(*[z3.And(g, o == S, r == 0) for g, o, r in self.changed]) if self.changed else z3.BoolVal(False)
+        chg_failed = z3.Or(*[z3.And(g, r != 0) for g, o, r in self.changed]) if self.changed else z3.BoolVal(False)
+        if succ is None:
+            self.oblige(st, "F-UNLINK:Bucket_deleteNextBucket:early-return-writes-nothing", z3.Not(z3.Or(wrote_self, wrote_other)))
+            return
+        self.assumptions.append(succ != S)          # A6b
+        G = {
+            "unlinked": z3.Implies(z3.And(v == 0, succ != 0), self.hread(st, "next", S) == self.hread(st, "next", succ)),
+            "registered": z3.Implies(z3.And(v == 0, succ != 0), reg),
+            "no_successor_no_write": z3.Implies(z3.And(v == 0, succ == 0), z3.Not(wrote_self)),
+            "only_self_is_relinked": z3.Not(wrote_other),
+            "failure_writes_nothing": z3.Implies(z3.And(v == -1, z3.Not(chg_failed)), z3.Not(wrote_self)),
+            "result_domain": z3.Or(v == 0, v == -1),
+        }
+        for nm, g in G.items():
+            self.oblige(st, "F-UNLINK:Bucket_deleteNextBucket:" + nm, g)
+
+
+class FUnlinkAny(CExec):
+    family = "F-UNLINK"
+
+    @classmethod
+    def applies(cls, tu, fn):
+        return fn in ("_BTree_set", "Bucket_deleteNextBucket")
+
+    def __new__(cls, tu, fname):
+        return {"_BTree_set": FUnlink, "Bucket_deleteNextBucket": FUnlinkLeaf}[fname](tu, fname)
+
+
+ANALYSIS = {"F-UNLINK": FUnlinkAny}
